@@ -513,6 +513,7 @@ func main() {
 		seqs["Spec.Step.ownership"] = callSeq(fd, map[string]bool{"Exec": true, "consider": true, "Copy": true, "Extend": true, "Extendm": true, "NewBindings": true})
 	}
 	if fd := sf["Spec.Walk"]; fd != nil {
+		seqs["Spec.Walk.ownership"] = callSeq(fd, map[string]bool{"Step": true, "Copy": true, "Extend": true, "Extendm": true, "NewStride": true})
 		ast.Inspect(fd.Body, func(n ast.Node) bool {
 			if as, ok := n.(*ast.AssignStmt); ok && len(as.Lhs) == 1 && len(as.Rhs) == 1 {
 				l := text(as.Lhs[0])
